@@ -200,10 +200,10 @@ def _split_quoted(text, separator, maxsplit=0):
 
 def _unquote_unescape(text):
     """Returns the string, and true if it was quoted."""
+    text = text.strip()
     if not text:
         return text, False
     quoted = False
-    text = text.strip()
     if text[0] == '"':
         if len(text) == 1 or text[-1] != '"':
             raise ValueError("missing close quote")
